@@ -17,6 +17,27 @@ SIM_NOTE = ("Trusted base: the simulated kernel / psutil.Popen fake "
             "EPERM, job-control stops. Search never proves absence.")
 
 TABLE = {
+ "C07": dict(
+  engine="E1-simworld", category="exploration", design_ref="DESIGN.md §4 C07",
+  technique="property-based testing: generated socket sets (inet/unix/so_reuseport) and watcher command lines referring to them, lifecycle histories over several worker generations; invariant oracle on the real sockets (fileno, inode, SO_ACCEPTCONN, connect) and on the arguments / inheritable flags captured at every process creation",
+  text=("Real CircusSocket objects are bound on loopback and in a scratch "
+        "directory; after every generated op each must still be the same "
+        "descriptor and inode, listening and connectable; every captured "
+        "spawn of a use_sockets watcher must carry close_fds=False, the right "
+        "descriptor number in argv and an inheritable descriptor, and plain "
+        "watchers close_fds=True."),
+  note=SIM_NOTE + " What a real child inherits is the live tier's business (E3)."),
+ "C08": dict(
+  engine="E1-simworld", category="exploration", design_ref="DESIGN.md §4 C08",
+  technique="enumeration of shutdown triggers (quit, SIGTERM, SIGINT, SIGQUIT) at every loop step of a set of in-flight operations plus Hypothesis-generated histories, on the circusd code path of the daemon over the simulated kernel with real managed sockets; Hypothesis-generated pid-file contents against Pidfile.create/unlink",
+  text=("The trigger is delivered at each step of daemon start, restart, "
+        "reload, incr, stop, kill and a respawning periodic check (and at "
+        "random points of generated histories); within the model's bound the "
+        "daemon must leave its loop, no worker may keep running, control, "
+        "event and managed sockets must be closed and unix socket files "
+        "gone. Pid files with empty, garbled, huge, own, live and dead "
+        "contents must be refused iff they name another live process."),
+  note=SIM_NOTE + " sys.exit status and the pid-file removal of circusd.main belong to the live tier."),
  "C16": dict(
   engine="E2-pure", category="exploration", design_ref="DESIGN.md §4 C16",
   technique="property-based testing with a constructive oracle: a generated configuration model (typed options in varied spellings, env layers, references) is rendered to ini text; get_config's result is compared with values computed from the model (documented types/defaults/precedence), plus determinism and section-reordering metamorphic relations",
